@@ -1163,12 +1163,25 @@ func ClassifyErr(v ssa.Value, at *ssa.BasicBlock) ErrKind {
 	if v == nil {
 		return ErrNil
 	}
+	guards := GuardsAt(at)
+	// the value itself is tested `!= nil` on every path to this point
+	for _, g := range guards {
+		if b, ok := g.Cond.(*ssa.BinOp); ok {
+			if (Strip(b.X) == Strip(v) && IsNilConst(b.Y)) || (Strip(b.Y) == Strip(v) && IsNilConst(b.X)) {
+				if (b.Op == token.NEQ && g.Pol) || (b.Op == token.EQL && !g.Pol) {
+					return ErrNonNil
+				}
+				if (b.Op == token.EQL && g.Pol) || (b.Op == token.NEQ && !g.Pol) {
+					return ErrNil
+				}
+			}
+		}
+	}
 	roots := Roots(v)
 	if len(roots) == 0 {
 		return ErrMaybe
 	}
 	allNil, allNon := true, true
-	guards := GuardsAt(at)
 	for _, r := range roots {
 		switch {
 		case IsNilConst(r):
